@@ -880,6 +880,19 @@ pub fn cb_action(uid: u32) {
             return;
         }
     }
+    if !by_clean {
+        // the only other occasion is the destruction of the Cleaner, i.e. of the value that owns it
+        let (owner, owner_live, excused) = {
+            let m = w.m.borrow();
+            let o = m.actions[uid as usize].owner;
+            let ob = &m.objs[o as usize];
+            (o, ob.status == Status::Live, ob.tainted || ob.map.map_or(false, |mp| m.objs[mp as usize].tainted || m.objs[mp as usize].status != Status::Live))
+        };
+        if owner_live && !excused {
+            w.fail("O-CLEAN.early", format!("cleaning action {} ran although clean() was not called for it and its Cleaner (owned by object {}) is not being dropped", uid, owner));
+            return;
+        }
+    }
     w.stats.borrow_mut().bump(if by_clean { "action_run_by_clean" } else { "action_run_by_cleaner_drop" });
     let _fg = w.push_frame(FrameKind::Action(uid), false, false);
     w.sample_phase(false, "a cleaning action");
@@ -896,5 +909,14 @@ pub fn cb_bulk_action(map: ObjId) {
     let mut m = w.m.borrow_mut();
     if (map as usize) < m.objs.len() {
         m.objs[map as usize].bulk_runs += 1;
+        // a bulk action runs inside bulk_clean (clean() on its Cleanable) or while the owner of the Cleaner is destroyed
+        let by_clean = m.bulk_clean_of == Some(map);
+        let owner = m.objs.iter().position(|o| o.map == Some(map));
+        let owner_live = owner.map_or(false, |o| m.objs[o].status == Status::Live && !m.objs[o].tainted);
+        let map_live = m.objs[map as usize].status == Status::Live && !m.objs[map as usize].tainted;
+        if !by_clean && owner_live && map_live {
+            drop(m);
+            w.fail("O-CLEAN.early", format!("a cleaning action of the cleaner of object {} ran although clean() was not called for it and the Cleaner is not being dropped", owner.unwrap()));
+        }
     }
 }
